@@ -259,6 +259,13 @@ func ruleCheckAllLoop(c *Ctx, pkgs ...string) {
 							hit = true
 						}
 					}
+					// ... or a local that is declared inside the loop body: it is computed anew for every element
+					// (`existing, ok := pool[attr.hash]`, `signerOK` derived from it)
+					if o := info.ObjectOf(id); o != nil {
+						if v, ok := o.(*types.Var); ok && !v.IsField() && rs.Body.Pos() <= v.Pos() && v.Pos() < rs.Body.End() {
+							hit = true
+						}
+					}
 					return true
 				})
 				return hit
